@@ -1,6 +1,9 @@
 """C09 — protocol timers measure elapsed time, not wall-clock time.
 
-Monitor: the real pynetdicom.timer.Timer runs with `pynetdicom.timer.time` replaced by a
+Two monitors.  (1) Live: a real acceptor association (network timeout 1 s, ARTIM 0.8 s) whose view of the WALL clock
+(`time.time` as bound in pynetdicom.timer / dul / association) is stepped by +-3600 / +-5 / 0 s while it is idle, while it
+receives a C-ECHO every 0.25 s, or while a connected peer stays silent: expiry must come after the timeout of ELAPSED time
+(not before 0.9 x, not later than +3 s) and a busy association must never time out.  (2) Unit: the real pynetdicom.timer.Timer runs with `pynetdicom.timer.time` replaced by a
 virtual clock module (wall clock and monotonic clock are separate and both virtual); an
 elapsed-time reference timer is stepped with the same operations; every read of
 `expired` / `remaining` is compared.  Agnostic to which clock function a correct
@@ -20,7 +23,8 @@ RULE = ("seeded operation sequences {start, stop, restart, set-timeout(None|0|x)
 ASSUMPTIONS = ["a correct Timer reads time only through the `time` module bound in pynetdicom.timer",
                "virtual clock: wall = elapsed + offset; only `advance` moves elapsed time"]
 WORKERS = {"quick": 8, "thorough": 16}
-REQUIRE = {"reads_after_wall_step_while_running": 100, "expired_true_reads": 50, "expired_false_reads": 50}
+REQUIRE = {"reads_after_wall_step_while_running": 100, "expired_true_reads": 50, "expired_false_reads": 50,
+           "live_scenarios": 15, "live_traffic": 5, "live_idle": 5, "live_artim": 5, "expiry_times_measured": 10, "echoes_under_stepped_clock": 40}
 
 
 class VClock:
@@ -69,7 +73,129 @@ class RefTimer:
 def gen_cases(tier, seed):
     n = 4000 if tier == "quick" else 120000
     per = 250 if tier == "quick" else 2000
-    return [{"seed": seed, "block": b, "count": per} for b in range(n // per)]
+    cases = [{"seed": seed, "block": b, "count": per} for b in range(n // per)]
+    # live part: the idle (network) timer and ARTIM as the provider uses them, wall clock stepped under a running association
+    steps = [3600.0, -3600.0, 5.0, -5.0, 0.0]
+    reps = 1 if tier == "quick" else 6
+    for r in range(reps):
+        for scn in ("traffic", "idle", "artim"):
+            for st in steps:
+                cases.append({"seed": seed, "live": scn, "step": st, "rep": r})
+    return cases
+
+
+# ---------------------------------------------------------------- live scenarios
+class _WallProxy:
+    """Stands in for the `time` module inside pynetdicom: time()/time_ns() are offset, everything else is the real module."""
+
+    def __init__(self):
+        import time as real
+        self._real = real
+        self.offset = 0.0
+
+    def __getattr__(self, name):
+        return getattr(self._real, name)
+
+    def time(self):
+        return self._real.time() + self.offset
+
+    def time_ns(self):
+        return self._real.time_ns() + int(self.offset * 1e9)
+
+
+_LIVE = {}
+
+
+def _live_setup():
+    if _LIVE:
+        return
+    import sys
+    from vlib import harness, taps
+    harness.quiet_logging()
+    taps.install()
+    import pynetdicom
+    wall = _WallProxy()
+    patched = []
+    for name, mod in list(sys.modules.items()):
+        if name.startswith("pynetdicom") and getattr(mod, "time", None) is wall._real:
+            mod.time = wall
+            patched.append(name)
+    _LIVE.update(wall=wall, patched=patched)
+
+
+def run_live(case):
+    import time as real
+    from vlib import cmdset, harness, peer as vpeer, ps38, taps
+    _live_setup()
+    wall = _LIVE["wall"]
+    wall.offset = 0.0
+    taps.reset()
+    NT, AT = 1.0, 0.8          # network (idle) timeout, ACSE timeout (= ARTIM)
+    ae = harness.make_ae(timeouts=(AT, 5.0, NT, 5.0), supported=["1.2.840.10008.1.1"])
+    server, port = harness.start_server(ae, [])
+    viol, obs = [], {"scenario": case["live"], "wall_step": case["step"], "modules_with_stepped_wall_clock": _LIVE["patched"]}
+    counters = {"live_scenarios": 1, "live_" + case["live"]: 1}
+    p = None
+    try:
+        p = vpeer.Peer.connect(port)
+        t_conn = real.monotonic()
+        scn = case["live"]
+        tag = "%s|step%+d" % (scn, int(case["step"]))
+        if scn == "artim":
+            real.sleep(0.3)
+            wall.offset = case["step"]
+            closed = p.wait_eof(AT + 3.0)
+            dt = real.monotonic() - t_conn
+            obs.update(closed=closed, closed_after_s=round(dt, 3), artim_timeout=AT)
+            if not closed:
+                viol.append({"key": "artim-expiry-delayed|" + tag, "detail": "silent peer: connection still open %.2f s after connecting (ARTIM %.1f s, wall clock stepped %+.0f s at 0.3 s)" % (dt, AT, case["step"])})
+            elif dt < AT * 0.9:
+                viol.append({"key": "artim-expired-early|" + tag, "detail": "silent peer: connection closed after %.2f s, ARTIM is %.1f s (wall clock stepped %+.0f s at 0.3 s)" % (dt, AT, case["step"])})
+            counters["expiry_times_measured"] = 1
+        else:
+            ac = p.associate(ps38.make_rq())
+            if not ac or ac.get("type") != "AC":
+                return {"key": sha(["live", tag, "setup"]), "nontrivial": False, "sample": obs, "violations": [], "counters": counters, "inconclusive": "association not accepted"}
+            t_last = real.monotonic()
+            if scn == "idle":
+                real.sleep(0.3)
+                wall.offset = case["step"]
+                v = p.recv_pdu(NT + 3.0)
+                dt = real.monotonic() - t_last
+                obs.update(answer=(v or {}).get("type"), after_s=round(dt, 3), network_timeout=NT)
+                if v is None:
+                    viol.append({"key": "idle-expiry-delayed|" + tag, "detail": "idle association: nothing %.2f s after the last PDU (network timeout %.1f s, wall clock stepped %+.0f s at 0.3 s)" % (dt, NT, case["step"])})
+                elif dt < NT * 0.9:
+                    viol.append({"key": "idle-expired-early|" + tag, "detail": "idle association ended (%s) %.2f s after the last PDU, network timeout is %.1f s (wall clock stepped %+.0f s)" % (v.get("type"), dt, NT, case["step"])})
+                counters["expiry_times_measured"] = 1
+            else:
+                # traffic every 0.25 s for 3 network timeouts: the association is never idle for as long as the timeout
+                answered, ended = 0, None
+                t0 = real.monotonic()
+                k = 0
+                while real.monotonic() - t0 < 3 * NT:
+                    k += 1
+                    if k == 3:
+                        wall.offset = case["step"]
+                    p.send_dimse(1, cmdset.c_echo_rq(k))
+                    m = p.recv_dimse(2.0)
+                    if m is None or m.get("type") != "DIMSE":
+                        ended = (m or {}).get("type", "no answer")
+                        break
+                    answered += 1
+                    real.sleep(0.25)
+                obs.update(echoes_answered=answered, ended=ended, network_timeout=NT)
+                counters["echoes_under_stepped_clock"] = answered
+                if ended is not None:
+                    viol.append({"key": "busy-association-timed-out|" + tag, "detail": "C-ECHO every 0.25 s, network timeout %.1f s, wall clock stepped %+.0f s before echo 3: after %d answers the peer got %r" % (NT, case["step"], answered, ended)})
+                else:
+                    p.release(2.0)
+    finally:
+        wall.offset = 0.0
+        if p is not None:
+            p.close()
+        harness.stop_ae(ae, 2.0)
+    return {"key": sha(["live", case["live"], case["step"]]), "nontrivial": True, "sample": obs, "violations": viol, "counters": counters}
 
 
 def gen_ops(rng):
@@ -150,6 +276,8 @@ def run_ops(ops):
 
 
 def run_case(case):
+    if "live" in case:
+        return run_live(case)
     rng = rng_for(case["seed"], PID, case["block"])
     counters = {}
     viols = []
@@ -188,4 +316,5 @@ def run_case(case):
 
 def extra_evidence(tier, results):
     n = sum(r.get("counters", {}).get("distinct_nontrivial_sequences", 0) for r in results.values())
-    return {"distinct_nontrivial": n, "note": "distinct_nontrivial counts op sequences (per-block distinct sets summed; blocks use disjoint RNG streams)"}
+    n += len({r["key"] for r in results.values() if r.get("counters", {}).get("live_scenarios") and r.get("nontrivial")})
+    return {"distinct_nontrivial": n, "note": "distinct_nontrivial counts op sequences (per-block distinct sets summed; blocks use disjoint RNG streams) plus distinct live (scenario, wall step) pairs"}
